@@ -95,7 +95,7 @@ def run(ctx):
         parts = o.split('|')
         if len(parts) == 3 and parts[0].strip() == '0' and parts[1].split() and parts[1].split()[-1].endswith(':1'):
             hist_out.append((d, lab, parts[2].strip()))
-    # ---- container model: files written by the single-threaded Stream encoder for the plain LZMA2 chain (one or several
+    # ---- container model: files written by the single-threaded Stream encoder for the LZMA2 chain with or without a Delta filter (one or several
     # Blocks via LZMA_FULL_FLUSH; Check None/CRC32/CRC64/SHA-256) must be byte for byte the model serialisation stream_bytes (subject
     # of xz_stream_is_valid_and_lossless) of the Blocks, chunks and symbols read from them
     xl, xm = [], []
@@ -106,7 +106,7 @@ def run(ctx):
         for j in range(rng.randrange(0, 4)):
             k = rng.randrange(0, left + 1); left -= k; steps.append('%s%d' % (rng.choice('FFS'), k))
         steps.append('R%d' % left)
-        fs_ = 'lzma2:dict=%s,lc=%d,lp=%d,pb=%d,mf=%s' % (rng.choice(['4KiB', '64KiB', '1MiB', '12KiB']), rng.randrange(4), 0, rng.randrange(5), rng.choice(['hc4', 'bt4']))
+        fs_ = rng.choice(['', '', 'delta:dist=%d+' % rng.choice([1, 2, 4, 255, 256, rng.randrange(1, 257)])]) + 'lzma2:dict=%s,lc=%d,lp=%d,pb=%d,mf=%s' % (rng.choice(['4KiB', '64KiB', '1MiB', '12KiB']), rng.randrange(4), 0, rng.randrange(5), rng.choice(['hc4', 'bt4']))
         xl.append('flush 4 %d %d %s %s %s' % (rng.choice([0, 1, 4, 10]) << 8, rng.randrange(1 << 20), fs_, ';'.join(steps), d.hex() or '-')); xm.append((d, fs_ + ' ' + ';'.join(steps)))
     xo, xf = run_lines(fl, xl)
     for f in xf: ctx.violation('encoder crashed in a flush history', {'line': (f[0] or '')[:20000], 'stderr': f[1], 'kind': 'crash'})
